@@ -69,7 +69,7 @@ void Net::park_write(const StreamPtr& s, std::string data, HandlerRW h) {
     if (stop_marker) writes_started_after_stop++;
     if (!s->open || !s->connected) { post_handler(*this, s->ex, std::move(h), error_code(s->open ? asio::error::not_connected : asio::error::bad_descriptor), size_t(0)); return; }
     if (!(s->lw_written > 0 && s->lw_written < s->lw_data.size() && s->lw_data.compare(s->lw_written, std::string::npos, data) == 0)) { s->lw_data = data; s->lw_written = 0; s->lw_start_ns = vclock::now_ns(); s->lw_seq_start = ++op_seq; }
-    s->write_parked = true; s->write_data = std::move(data); s->write_delivered = false; s->write_w.emplace(asio::make_work_guard(s->ex));
+    s->write_parked = true; s->write_data = std::move(data); s->write_delivered = false; s->write_hung = false; s->write_w.emplace(asio::make_work_guard(s->ex));
     auto slot = asio::get_associated_cancellation_slot(h);
     if (slot.is_connected()) { std::weak_ptr<StreamState> w = s; slot.assign([w](asio::cancellation_type_t) { if (auto q = w.lock()) if (g_net) g_net->cancel_op(q, OP_WRITE); }); }
     s->write_h = std::move(h);
